@@ -176,3 +176,6 @@ for e in select("thorough", "leaf", "univ") + select("thorough", "constructed"):
         OBLIGATIONS.append(entry_obl("stream_positions", stream_positions, e,
                                      extra={"codec": I(0, 2), "defMode": B, "chunk": I(0, 3), "cnt": I(1, 3)}, budget=90, narrow=True,
                                      extra_shards=[{"codec": C(c)} for c in range(3)]))
+
+# quick tier: entries added for other properties' sake run in the thorough tier only here
+demote(OBLIGATIONS, ['seq_optc', 'set_chx', 'seq_hitags.E', 'seq_wide', 'seq_optnull', 'seqof_choice_cons', 'choice_cons'])
